@@ -59,7 +59,14 @@ func respText(reqText string) string { return "re:" + reqText }
 func respNum(n int64) int64          { return n*3 + 1 }
 func failCode(id int64) connect.Code { return connect.Code(id%16 + 1) }
 
-func wantsFail(n int64) bool { return (n/1000)%5 == 0 || wantsShared(n) }
+func wantsFail(n int64) bool { return (n/1000)%5 == 0 || wantsShared(n) || wantsEarly(n) }
+
+// Some bidi calls are failed by the handler right after the first request
+// message, while the client's sender goroutine still has a lot to send: the
+// receiver goroutine learns about the end of the stream while Send is running.
+func wantsEarly(n int64) bool { return (n/1000)%11 == 4 }
+
+const earlyExtra = 30
 
 // Some failing calls return one shared sentinel *connect.Error value (with
 // metadata), the way applications return package-level errors. The library
@@ -153,6 +160,9 @@ func handlers() http.Handler {
 			}
 			if first < 0 {
 				first = m.Number
+				if wantsEarly(first) {
+					return callErr(first)
+				}
 			}
 			if err := s.Send(&pingv1.PingResponse{Number: respNum(m.Number), Text: respText(m.Text)}); err != nil {
 				return err
@@ -205,7 +215,7 @@ func expected(c CallSpec) (msgs []prog.Obs, fail bool) {
 			msgs = append(msgs, prog.Obs{N: respNum(first.N) + int64(i), T: respText(first.Text())})
 		}
 	case prog.Bidi:
-		for i := 0; i < c.NMsgs; i++ {
+		for i := 0; i < c.NMsgs && !wantsEarly(first.N); i++ {
 			m := reqMsg(c, i)
 			msgs = append(msgs, prog.Obs{N: respNum(m.N), T: respText(m.Text())})
 		}
@@ -270,7 +280,11 @@ func runCall(ctx context.Context, cl *connect.Client[pingv1.PingRequest, pingv1.
 		wg.Add(1)
 		go func() {
 			defer wg.Done()
-			for i := 0; i < c.NMsgs; i++ {
+			n := c.NMsgs
+			if n > 0 && wantsEarly(reqMsg(c, 0).N) {
+				n += earlyExtra // keep sending while the handler ends the call
+			}
+			for i := 0; i < n; i++ {
 				if err := s.Send(reqMsg(c, i).Req()); err != nil {
 					break
 				}
@@ -514,11 +528,19 @@ func check(tt *testing.T, p Plan) (pbt.Info, error) {
 		}
 		// … and a storm of small calls: many buffer-pool Get/Put pairs per
 		// unit of time, all kinds of outcomes, pairwise distinct payloads
-		errs = make(chan error, 16*40)
+		errs = make(chan error, 16*41)
 		for w := 0; w < 16; w++ {
 			wg.Add(1)
 			go func(w int) {
 				defer wg.Done()
+				// one bidi call that the handler fails early while this
+				// goroutine's sender is still busy
+				if ec := (CallSpec{ID: 650104 + 11*w, Protocol: prog.Protocols[w%3], Codec: "proto", Kind: prog.Bidi, NMsgs: 2, Size: 2000}); !wantsShared(reqMsg(ec, 0).N) {
+					if err := verify(runCall(ctx, client(ec), ec), "bidi call failed early by the handler while the sender goroutine is sending"); err != nil {
+						errs <- err
+						return
+					}
+				}
 				for i := 0; i < 40; i++ {
 					c := CallSpec{ID: 600000 + w*100 + i, Protocol: prog.Protocols[(w+i)%3], Codec: prog.Codecs[(w/3+i)%2], Kind: prog.Unary, Send: []string{"", "gzip", ""}[i%3], NMsgs: 1, Size: 40 + (w*40+i)%400}
 					if err := verify(runCall(ctx, client(c), c), "storm of small concurrent calls"); err != nil {
@@ -591,4 +613,6 @@ var specSock = pbt.Spec[Plan]{Prop: "C13", Name: "plans-sock", Gen: gen("sock", 
 
 func TestPlansMem(t *testing.T)  { pbt.Run(t, specMem) }
 func TestPlansSock(t *testing.T) { pbt.Run(t, specSock) }
-func TestReplay(t *testing.T)    { pbt.ReplayMain(t, pbt.Replayer(specMem), pbt.Replayer(specSock)) }
+func TestReplay(t *testing.T) {
+	pbt.ReplayMain(t, pbt.Replayer(specMem), pbt.Replayer(specSock), pbt.Replayer(specRetained))
+}
